@@ -3,12 +3,33 @@ package main
 import (
 	"gtsverif/core"
 	"gtsverif/engines/cachekey"
+	"gtsverif/engines/conserve"
 	"gtsverif/engines/integrity"
+	"gtsverif/engines/orders"
 	"gtsverif/engines/tables"
 )
 
 func init() {
 	register("C18", false, func(p *core.Prog, r *core.Report, tier string) { tables.C18(p, r) })
+	register("C02", false, func(p *core.Prog, r *core.Report, tier string) { conserve.C02(p, r) })
+	register("C03", false, func(p *core.Prog, r *core.Report, tier string) {
+		conserve.C03(p, r)
+		orders.Intervals(p, r)
+	})
+	register("C09", false, func(p *core.Prog, r *core.Report, tier string) {
+		orders.SegmentOrder(p, r)
+		r.Exhaustive = true
+		r.NotDecided = append(r.NotDecided, "the merge loop of Minimize", "abutment handling", "gap enumeration of invertSegments", "the circular merge of InvertCircular")
+		r.Assumptions = append(r.Assumptions, "sort.Sort sorts correctly when given a strict weak order")
+	})
+	register("C19", false, func(p *core.Prog, r *core.Report, tier string) {
+		orders.Compare3(p, r)
+		conserve.FilterRule(p, r)
+		r.NotDecided = append(r.NotDecided, "selector grammar and regexp semantics", "the tie-break and the recursive cases of LocationLess", "boolean-algebra laws of And/Or/Not", "the binary search of FeatureSlice.Insert")
+	})
+	register("C04", false, func(p *core.Prog, r *core.Report, tier string) { conserve.C04(p, r) })
+	register("C05", false, func(p *core.Prog, r *core.Report, tier string) { conserve.C05(p, r) })
+	register("C15", false, func(p *core.Prog, r *core.Report, tier string) { conserve.C15(p, r) })
 	register("C13", false, func(p *core.Prog, r *core.Report, tier string) { integrity.C13(p, r) })
 	register("C14", false, func(p *core.Prog, r *core.Report, tier string) { cachekey.C14(p, r) })
 }
